@@ -11,6 +11,8 @@ import (
 	"os"
 	"sort"
 	"strings"
+	"sync"
+	"time"
 
 	badger "github.com/dgraph-io/badger/v2"
 	"github.com/golang/protobuf/proto"
@@ -29,7 +31,24 @@ type ScriptGroup struct {
 	ProcessSnap raft.ProcessFn
 	Snapshot    raft.SnapshotFn
 	Proposals   [][]byte
+	// Commit: proposals are accepted (Propose returns nil, as a raft node does once the proposal is handed over) and
+	// queued; the harness, playing the group's ready loop, applies them later in proposal order (TakePending).
+	// Otherwise every proposal fails at once.
+	Commit bool
+	// Late (with Commit): Propose returns only after the ready loop has applied the proposal (or after a second) - the
+	// proposing goroutine was descheduled after handing the proposal over, so the outcome is there before it waits.
+	Late    bool
+	mu      sync.Mutex
+	pending []Pending
 }
+
+// Pending is an accepted proposal; the ready loop calls Applied after processing it.
+type Pending struct {
+	Data []byte
+	done chan struct{}
+}
+
+func (p Pending) Applied() { close(p.done) }
 
 func (g *ScriptGroup) RegisterProcessFn(f raft.ProcessFn) error { g.Process = f; return nil }
 func (g *ScriptGroup) RegisterProcessSnapshotFn(f raft.ProcessFn) error {
@@ -39,8 +58,50 @@ func (g *ScriptGroup) RegisterProcessSnapshotFn(f raft.ProcessFn) error {
 func (g *ScriptGroup) RegisterSnapshotFn(f raft.SnapshotFn) error { g.Snapshot = f; return nil }
 func (g *ScriptGroup) LeaderId() uint64                           { return 1 }
 func (g *ScriptGroup) Propose(ctx context.Context, data []byte) error {
+	g.mu.Lock()
 	g.Proposals = append(g.Proposals, append([]byte(nil), data...))
-	return errors.New("scripted group: proposals are applied by the harness")
+	if !g.Commit {
+		g.mu.Unlock()
+		return errors.New("scripted group: proposals are applied by the harness")
+	}
+	p := Pending{append([]byte(nil), data...), make(chan struct{})}
+	g.pending = append(g.pending, p)
+	late := g.Late
+	g.mu.Unlock()
+	if late {
+		select {
+		case <-p.done:
+		case <-time.After(time.Second):
+		case <-ctx.Done():
+		}
+	}
+	return nil
+}
+
+// TakePending removes and returns the accepted proposals that have not been applied yet, oldest first.
+func (g *ScriptGroup) TakePending() []Pending {
+	g.mu.Lock()
+	defer g.mu.Unlock()
+	p := g.pending
+	g.pending = nil
+	return p
+}
+
+// ProposedNodeChange tells whether this node has proposed a replica-set change for a partition of the dataset.
+func (g *ScriptGroup) ProposedNodeChange(dataset uuid.UUID) bool {
+	g.mu.Lock()
+	defer g.mu.Unlock()
+	for _, b := range g.Proposals {
+		var ch pb.DatasetManagerChange
+		if proto.Unmarshal(b, &ch) != nil || ch.Type != pb.DatasetManagerChangeType_DatasetManagerUpdatePartitionNodes {
+			continue
+		}
+		var c pb.DatasetPartitionNodesChange
+		if proto.Unmarshal(ch.Data, &c) == nil && uuid.Equal(uuid.FromBytesOrNil(c.DatasetId), dataset) {
+			return true
+		}
+	}
+	return false
 }
 
 // Leaked counts raft groups that were still running although no dataset of the
@@ -134,7 +195,8 @@ type Op struct {
 	Nodes [][]uint64 `json:"nodes,omitempty"` // create: per partition node ids
 	Part  int        `json:"part,omitempty"`  // add/remove node: partition index (mod count)
 	Node  uint64     `json:"node,omitempty"`
-	Gen   int        `json:"gen,omitempty"` // create: generation of the slot's partition ids
+	Gen   int        `json:"gen,omitempty"`  // create: generation of the slot's partition ids
+	Repl  int        `json:"repl,omitempty"` // create: replication factor (0 = 1)
 }
 
 func (o Op) String() string {
@@ -169,6 +231,9 @@ func Marshal(o Op, i int, m Model) []byte {
 	switch o.K {
 	case OpCreate:
 		ds := &pb.Dataset{Id: DatasetID(o.Slot).Bytes(), Dimension: uint32(o.Dim), Space: pb.Space(o.Space), PartitionCount: uint32(len(o.Nodes)), ReplicationFactor: 1}
+		if o.Repl > 1 {
+			ds.ReplicationFactor = uint32(o.Repl)
+		}
 		for p, ns := range o.Nodes {
 			ds.Partitions = append(ds.Partitions, &pb.Partition{Id: PartitionID(o.Slot, o.Gen, p).Bytes(), NodeIds: append([]uint64(nil), ns...)})
 		}
